@@ -564,6 +564,19 @@ def generate(repo):
     g.item('intersect', 'prysm/x/raytracing/spencer_and_murty.py:intersect', lambda: get_def(sm, 'intersect'),
            vertex_plane, f'def toVertexPlane (P0 S : V3 K) : V3 K := {M}.toVertexPlane P0 S')
 
+    def newton_start():
+        fn = get_def(sm, 'intersect')
+        (ret,) = find_returns(fn)
+        if not (isinstance(ret, ast.Call) and ast.unparse(ret.func) == 'newton_raphson_solve_s' and len(ret.args) >= 4):
+            return None
+        a0, a3 = ast.unparse(ret.args[0]), _n(ast.unparse(ret.args[3]))
+        if a0 == 'P1' and a3 == 's1':
+            return True          # Newton runs in the surface frame from the vertex-plane point, with the caller's guess
+        if a0 == 'P0':
+            return False         # Newton would run from the (possibly very distant) ray origin: s ~ distance, residual ~ ulp(distance)
+        return None
+    g.fact('newtonStartsOnVertexPlane', 'prysm/x/raytracing/spencer_and_murty.py:intersect', newton_start)
+
     def newton():
         fn = get_def(sm, 'newton_raphson_solve_s')
         loop = [n for n in fn.body if isinstance(n, ast.For)][0]
